@@ -1190,7 +1190,8 @@ EXTRA_CELLS = [
                               "P c = {1, 2};", "println(c.x, c.y);", "c.inc();")),
     ("struct_string_member/store", _x("struct S { string s; int b; };\n", '{Q}S c = {"abc", 2};', "println(c.s, c.b);", 'c.s = "q";')),
     ("swap_like/two_stores", _x("", "{Q}int c = 5; int d = 7; int t = 0;", "println(c, d);", "t = c; c = d; d = t;")),
-    # cells found while enumerating access paths into nested objects (harness/c09_paths.py); the first four are findings
+    # cells found while enumerating access paths into nested objects (harness/c09_paths.py); the fourth is a finding, the first
+    # three were (repaired: C09-const-float-array, C09-const-array-copy-init)
     ("double_array/elem", _x("", "{Q}double[3] c = [1.0, 2.0, 3.0];", "println(c[0], c[1], c[2]);", "c[0] = 77.0;")),
     ("float_array/compound", _x("", "{Q}float[3] c = [1.0, 2.0, 3.0];", "println(c[0], c[1], c[2]);", "c[0] += 1.0;")),
     ("array_copy_init/elem", _x("", "int[3] s = [1, 2, 3]; {Q}int[3] c = s;", "println(c[0], c[1], c[2]);", "c[0] = 77;")),
